@@ -149,19 +149,24 @@ def body(case, ctx):
             inc = overlap_free(mod)
 
     def placement_follows_the_documented_rule():
-        """Evaluated only when the time-order clause fails: does the library place every operation exactly as the
-        placement rule of C01 says (reference model: deepest earlier operation sharing a channel)?  Then the schedule
-        is the specified one and the clause fails because of the rule, not because of how it is implemented."""
+        """Evaluated only when the time-order clause fails: is the unrolled circuit's schedule exactly the one the placement
+        rule of C01 gives (reference model: an operation or block without relation follows the deepest earlier item sharing a
+        channel; every copy of a repeated block follows the latest-ending leaf of the previous one)?  Then the clause fails
+        because of the rule, not because of how it is implemented."""
         from .. import observe as O
         try:
+            g, dreg = program.get("g"), program.get("dreg", {})
             root = M.build(program)
             twin = P.build(program)
             twin.circuit.operations
-            mapping = O.match(root, twin.circuit.circuit_structure, program.get("g"), program.get("dreg", {}))
-            M.schedule(root, program.get("g"), program.get("dreg", {}))
-            ok = all(abs(float(mapping[id(n)].start_time) - n.start) < 1e-9 for n in root.all_nodes() if id(n) in mapping)
-            multi = any(len(it["q"]) >= 2 for _, it in leaves)
-            return {"placement_as_documented": bool(ok), "multi_qubit_operation": multi, "no_repetition": st["n_reps_gt1"] == 0}
+            O.match(root, twin.circuit.circuit_structure, g, dreg)          # fixes the implicit choices in the model
+            M.schedule(root, g, dreg)
+            um, info = M.unroll(root, g, dreg)
+            if info["ambiguous"]:
+                return {"placement_as_documented": False, "model": "ambiguous"}
+            mapping = O.match(um, mod.circuit_structure, g, dreg)
+            ok = all(abs(float(mapping[id(n)].start_time) - n.start) < 1e-9 for n in um.all_nodes() if id(n) in mapping)
+            return {"placement_as_documented": bool(ok)}
         except Exception as e:        # noqa: BLE001
             return {"placement_as_documented": False, "model_error": type(e).__name__}
     ms = check_indices(ctx, mod, "unrolled", dict(facts, lazy=placement_follows_the_documented_rule), increasing=inc)
@@ -231,9 +236,9 @@ def parts():
 
 @findings.predicate("c07_depth_based_placement_orders_indices_against_time")
 def _pred_depth_placement(case, facts) -> bool:
-    """An operation without relation is placed behind the DEEPEST earlier operation sharing a channel (C01), which need
-    not be the one that ends last; with a multi-qubit operation (barrier, two-qubit gate) joining a short deep chain and a
-    long shallow one, a later-added measurement is then listed - and indexed - after an earlier-added one although it
-    starts before it, without any channel overlap.  Signature: no repetition involved, a multi-qubit operation present,
-    and the library's schedule is exactly the one the documented placement rule gives."""
-    return bool(facts.get("placement_as_documented") and facts.get("multi_qubit_operation") and facts.get("no_repetition"))
+    """An operation or block without relation is placed behind the DEEPEST earlier item sharing a channel (C01), which need
+    not be the one that ends last; something that spans two qubit lines (a barrier, a two-qubit gate, a sub-circuit) can
+    therefore be sequenced behind a short deep chain while a longer shallow one is still running, and a later-added
+    measurement is then listed - and indexed - after an earlier-added one although it starts before it, without any channel
+    overlap.  Signature: the unrolled circuit's schedule is exactly the one the documented placement rule gives."""
+    return bool(facts.get("placement_as_documented"))
